@@ -46,6 +46,7 @@ def run(repo, res, tier):
     res.rule("Q4-LOGIC", "checks are conjoined per goal state and disjoined over goal states", 5)
     res.rule("Q5-PAIRING", "state attribute compared with the goal attribute of the same name; speed/heading conventions", 6)
     res.rule("Q6-INDEX", "goal_reached returns the index of the state that reached the goal", 2)
+    res.rule("Q7-PER-GOAL", "each goal state is evaluated on data built afresh in its own loop iteration", 1)
     eff = Effects(repo)
     gmod = repo.mod(G)
     goal = repo.cls(G, "GoalRegion")
@@ -244,6 +245,48 @@ def run(repo, res, tier):
     res.check("Q6-INDEX", "goal_reached returns (True, index of the state for which is_reached held)", ok, pmod, gr, "goal_reached success return", "the reported index does not belong to a state that reaches the goal", qualname="PlanningProblem.goal_reached")
     tail = [n for n in gr.body if isinstance(n, ast.Return)]
     res.check("Q6-INDEX", "goal_reached returns (False, -1) when no state reaches the goal", len(tail) == 1 and norm(tail[0].value) == "(False, -1)", pmod, gr, "goal_reached failure return", "failure is not reported as (False, -1)", qualname="PlanningProblem.goal_reached")
+    # ---------------------------------------------------------------- Q7: no state carried from one goal state to the next
+    gmod = repo.mod(GO) if "GO" in globals() else repo.mod("commonroad/planning/goal.py")
+    gcls = gmod.classes.get("GoalRegion")
+    ir = gcls.methods.get("is_reached") if gcls is not None else None
+    if ir is None:
+        raise AnalysisError("GoalRegion.is_reached missing")
+    from ..dataflow import ReachingDefs as _RD
+    from ..effects import FnKey as _FK
+
+    fk = _FK(gcls, ir, gmod)
+    rd = _RD(ir)
+    gloops = [n for n in ir.body if isinstance(n, ast.For) and "state_list" in norm(n.iter)]
+    if len(gloops) != 1:
+        raise AnalysisError("is_reached: loop over the goal states not found")
+    lp = gloops[0]
+    inside = {id(x) for x in ast.walk(lp)}
+    n7 = 0
+    for c in ast.walk(lp):
+        if not isinstance(c, ast.Call):
+            continue
+        mutated = []  # (argument Name node, description)
+        cands, mode, recv = eff.resolve_call(fk, c)
+        if mode in ("exact", "typed", "exact-unbound") and cands:
+            for k in cands:
+                b = eff.bind(k, recv, list(c.args), {kw.arg: kw.value for kw in c.keywords if kw.arg})
+                for pname, arg in b.items():
+                    if isinstance(arg, ast.Name) and eff.mutates_param(k, pname):
+                        mutated.append((arg, "%s mutates its parameter %s" % (k.name, pname)))
+        if isinstance(c.func, ast.Attribute) and isinstance(c.func.value, ast.Name) and c.func.attr in ("add", "remove", "discard", "append", "pop", "clear", "update", "extend"):
+            v = c.func.value
+            # a pure accumulator (only ever the receiver of such calls inside the loop) collects results, it is no input
+            other_loads = [x for x in ast.walk(lp) if isinstance(x, ast.Name) and x.id == v.id and isinstance(x.ctx, ast.Load) and not (isinstance(gmod.parent.get(x), ast.Attribute) and gmod.parent.get(x).attr in ("add", "append", "extend", "update"))]
+            if other_loads:
+                mutated.append((v, "%s(..)" % norm(c.func)))
+        for arg, why in mutated:
+            if arg.id in ("self",) or arg.id in [a.arg for a in ir.args.args]:
+                continue
+            n7 += 1
+            outside = [d for d in rd.defs(arg.id, c) if d.stmt is not None and id(d.stmt) not in inside]
+            res.check("Q7-PER-GOAL", "is_reached: %s passed to a mutating operation is built inside the loop (%s)" % (arg.id, why), not outside, gmod, c, "is_reached: %s defined before the goal-state loop and mutated inside it (%s)" % (arg.id, why), "what one goal state's evaluation changes is seen by the next goal state: the disjunction over goal states depends on their order", qualname="GoalRegion.is_reached")
+    if n7 < 1:
+        raise AnalysisError("is_reached: no mutated input found in the goal-state loop (1 confirmed: state_fields, changed by _harmonize_state_types)")
     return {"derived_properties": {"%s.%s" % k: sorted(v) for k, v in dp.items()}}
 
 
